@@ -701,6 +701,122 @@ theorem runGroups_perm (conf : Pol → Pol → Bool) (gs gs' : List (List Pol)) 
     have h2 : ∀ g ∈ gs', x ∉ ids g := fun g hg hx => h ⟨g, hp.mem_iff.mpr hg, hx⟩
     rw [runGroups_frame conf gs [] x h1, runGroups_frame conf gs' [] x h2]
 
+theorem pairwise_ids_inj : ∀ (l : List Pol), List.Pairwise (fun a b => a.id ≠ b.id) l →
+    ∀ x ∈ l, ∀ y ∈ l, x.id = y.id → x = y
+  | [], _, _, hx, _, _, _ => by simp at hx
+  | a :: t, hp, x, hx, y, hy, e => by
+    have hp' := List.pairwise_cons.mp hp
+    rcases List.mem_cons.mp hx with hx | hx <;> rcases List.mem_cons.mp hy with hy | hy
+    · rw [hx, hy]
+    · rw [hx] at e; exact absurd e (hp'.1 y hy)
+    · rw [hy] at e; exact absurd e.symm (hp'.1 x hx)
+    · exact pairwise_ids_inj t hp'.2 x hx y hy e
+
+theorem dropped_sub (conf : Pol → Pol → Bool) : ∀ (rest acc : List Pol) (p : Pol), p ∈ dropped conf acc rest → p ∈ rest
+  | [], _, _, h => by simp [dropped] at h
+  | q :: rest, acc, p, h => by
+    by_cases hc : acc.any (fun a => conf a q) = true
+    · simp only [dropped, hc, if_true] at h
+      rcases List.mem_cons.mp h with e | e
+      · rw [e]; exact List.mem_cons_self
+      · exact List.mem_cons_of_mem _ (dropped_sub conf rest acc p e)
+    · simp only [dropped, hc, Bool.false_eq_true, if_false] at h
+      exact List.mem_cons_of_mem _ (dropped_sub conf rest _ p h)
+
+/-- whoever conflicts with a current survivor is dropped -/
+theorem dropped_of_any (conf : Pol → Pol → Bool) : ∀ (rest acc : List Pol) (j : Pol),
+    j ∈ rest → acc.any (fun a => conf a j) = true → j ∈ dropped conf acc rest
+  | [], _, _, h, _ => by simp at h
+  | q :: rest, acc, j, h, ha => by
+    by_cases hc : acc.any (fun a => conf a q) = true
+    · simp only [dropped, hc, if_true]
+      rcases List.mem_cons.mp h with e | e
+      · rw [e]; exact List.mem_cons_self
+      · exact List.mem_cons_of_mem _ (dropped_of_any conf rest acc j e ha)
+    · simp only [dropped, hc, Bool.false_eq_true, if_false]
+      rcases List.mem_cons.mp h with e | e
+      · rw [e] at ha; exact absurd ha hc
+      · exact dropped_of_any conf rest _ j e (by simp [List.any_append, ha])
+
+/-- `processGroup` (the two nested loops of markConflictedPolicies) computes the greedy-by-age losers:
+soundness AND completeness, from any state `inv` that reflects the survivors `acc` seen so far. -/
+theorem processGroup_greedy (conf : Pol → Pol → Bool) :
+    ∀ (rest acc : List Pol) (inv : List Nat),
+      List.Pairwise (fun a b => a.id ≠ b.id) rest →
+      (∀ j ∈ rest, (j.id ∈ inv ↔ acc.any (fun a => conf a j) = true)) →
+      ∀ x, x ∈ processGroup conf rest inv ↔ x ∈ inv ∨ x ∈ (dropped conf acc rest).map (·.id)
+  | [], acc, inv, _, _, x => by simp [processGroup, dropped]
+  | i :: rest, acc, inv, hpw, hinv, x => by
+    have hpw' := List.pairwise_cons.mp hpw
+    have hi := hinv i List.mem_cons_self
+    have hrest : ∀ j ∈ rest, (j.id ∈ inv ↔ acc.any (fun a => conf a j) = true) :=
+      fun j hj => hinv j (List.mem_cons_of_mem _ hj)
+    by_cases hc : inv.contains i.id = true
+    · have hin : i.id ∈ inv := by simpa using hc
+      have hany : acc.any (fun a => conf a i) = true := hi.mp hin
+      simp only [processGroup, hc, if_true, dropped, hany, List.map_cons, List.mem_cons]
+      rw [processGroup_greedy conf rest acc inv hpw'.2 hrest x]
+      constructor
+      · rintro (h | h)
+        · exact Or.inl h
+        · exact Or.inr (Or.inr h)
+      · rintro (h | h | h)
+        · exact Or.inl h
+        · rw [h]; exact Or.inl hin
+        · exact Or.inr h
+    · have hnin : ¬ i.id ∈ inv := by simpa using hc
+      have hany : ¬ acc.any (fun a => conf a i) = true := fun h => hnin (hi.mpr h)
+      simp only [processGroup, hc, Bool.false_eq_true, if_false, dropped, hany]
+      have hinv' : ∀ j ∈ rest, (j.id ∈ markFrom conf i rest inv ↔ (acc ++ [i]).any (fun a => conf a j) = true) := by
+        intro j hj
+        rw [markFrom_mem, hrest j hj]
+        simp only [List.any_append, List.any_cons, List.any_nil, Bool.or_false, Bool.or_eq_true]
+        constructor
+        · rintro (h | ⟨j', hj', e, c⟩)
+          · exact Or.inl h
+          · have : j' = j := by
+              by_cases ejj : j' = j
+              · exact ejj
+              · exfalso
+                -- two different members of `rest` with one id contradict pairwise distinctness
+                have := pairwise_ids_inj rest hpw'.2 j' hj' j hj e
+                exact ejj this
+            rw [this] at c; exact Or.inr c
+        · rintro (h | h)
+          · exact Or.inl h
+          · exact Or.inr ⟨j, hj, rfl, h⟩
+      rw [processGroup_greedy conf rest (acc ++ [i]) _ hpw'.2 hinv' x, markFrom_mem]
+      constructor
+      · rintro ((h | ⟨j, hj, e, c⟩) | h)
+        · exact Or.inl h
+        · right
+          exact List.mem_map.mpr ⟨j, dropped_of_any conf rest _ j hj (by simp [List.any_append, c]), e⟩
+        · exact Or.inr h
+      · rintro (h | h)
+        · exact Or.inl (Or.inl h)
+        · exact Or.inr h
+
+/-- explicit form of the greedy specification: the policy at a given position is dropped iff one of the SURVIVORS among
+the older policies conflicts with it -/
+theorem mem_dropped_iff (conf : Pol → Pol → Bool) (p : Pol) (post : List Pol) (hpost : p ∉ post) :
+    ∀ (pre acc : List Pol), p ∉ pre →
+      (p ∈ dropped conf acc (pre ++ p :: post) ↔ (survivors conf acc pre).any (fun q => conf q p) = true)
+  | [], acc, _ => by
+    by_cases hc : acc.any (fun a => conf a p) = true
+    · simp [dropped, survivors, hc]
+    · simp only [List.nil_append, dropped, hc, Bool.false_eq_true, if_false, survivors]
+      constructor
+      · intro h; exact absurd (dropped_sub conf post _ p h) hpost
+      · intro h; cases h
+  | q :: pre, acc, hpre => by
+    have hne : p ≠ q := fun e => hpre (by rw [e]; exact List.mem_cons_self)
+    have hpre' : p ∉ pre := fun h => hpre (List.mem_cons_of_mem _ h)
+    by_cases hc : acc.any (fun a => conf a q) = true
+    · simp only [List.cons_append, dropped, survivors, hc, if_true, List.mem_cons, hne, false_or]
+      exact mem_dropped_iff conf p post hpost pre acc hpre'
+    · simp only [List.cons_append, dropped, survivors, hc, Bool.false_eq_true, if_false]
+      exact mem_dropped_iff conf p post hpost pre (acc ++ [q]) hpre'
+
 theorem markConflicted_eq_runGroups (conf : Pol → Pol → Bool) (keys : List (Nat × Nat)) (pols : List Pol) :
     markConflicted conf keys pols = runGroups conf (keys.map (groupOf pols)) [] := by
   unfold markConflicted runGroups
